@@ -491,7 +491,8 @@ func (c *twoPhaseCommitter) resolveFlushedLocks(bo *retry.Backoffer, start, end 
 	runner.SetRegionsPerTask(1)
 
 	c.txn.spawnWithStorePool(func() {
-		if err = runner.RunOnRange(bo.GetCtx(), start, end); err != nil {
+		// end is the largest flushed key (inclusive), the range of a task is [start, end).
+		if err = runner.RunOnRange(bo.GetCtx(), start, kv.NextKey(end)); err != nil {
 			logutil.Logger(bo.GetCtx()).Error("[pipelined dml] resolve flushed locks failed",
 				zap.String("txn-status", status),
 				zap.Uint64("resolved regions", resolved.Load()),
